@@ -673,7 +673,7 @@ def expandable(
                                 contextual_precision=Fraction(
                                     cur_ctxt.contextual_precision.numerator
                                     * combined_count,
-                                    cur_ctxt.contextual_precision.denominator * total,
+                                    cur_ctxt.contextual_precision.denominator * (total or 1),
                                 ),
                             )
                         )
